@@ -270,6 +270,42 @@ class Ctor(COp):
 
 
 @cregister
+class UfuncKw(COp):
+    """NumPy ufuncs called on signals with keyword arguments (where=, dtype=, casting=) and
+    no out=: none of them names a target, so nothing the caller owns may change."""
+    name = "ufunc_kw"
+    terminal = True
+
+    def gen(self, tape, info):
+        return {"form": ["add_where", "conj_where", "radd_where", "mul_dtype", "sub_casting",
+                         "add_where_signal"][tape.draw(6, "ukw.form")], "seed": tape.draw(64, "ukw.seed")}
+
+    def prepare(self, pb, z, desc):
+        rng = np.random.default_rng(desc["seed"])
+        a = {"mask": rng.integers(0, 2, size=z.shape).astype(bool),
+             "arr": rng.standard_normal(z.shape).astype(z.dtype)}
+        if desc["form"] == "add_where_signal":
+            a["w"] = type(z).like(z, rng.standard_normal(z.shape).astype(z.dtype))
+        return a
+
+    def call(self, pb, z, args, desc):
+        f, m = desc["form"], args["mask"]
+        if f == "add_where":
+            return np.add(z, 1, where=m)
+        if f == "conj_where":
+            return np.conjugate(z, where=m)
+        if f == "radd_where":
+            return np.multiply(args["arr"], z, where=m)
+        if f == "mul_dtype":
+            return np.multiply(z, 2, dtype=np.result_type(z.dtype, np.float64))
+        if f == "sub_casting":
+            return np.subtract(z, args["arr"], casting="same_kind")
+        if f == "add_where_signal":
+            return np.add(z, args["w"], where=m)
+        raise ValueError(f)
+
+
+@cregister
 class CtorRaw(COp):
     """Construct a signal directly from a caller-owned raw buffer (native or byte-swapped,
     C / Fortran / strided) and a caller-owned Time of some format and precision."""
@@ -400,7 +436,7 @@ def all_ops():
     return d
 
 
-C_WEIGHTS = {"ctor_raw": 2, "compute_sim": 2, "observe": 2, "contains": 2, "inplace": 4, "istft": 3, "stft": 2,
+C_WEIGHTS = {"ufunc_kw": 2, "ctor_raw": 2, "compute_sim": 2, "observe": 2, "contains": 2, "inplace": 4, "istft": 3, "stft": 2,
              "time_shift": 3, "freq_shift": 3, "snippet": 2, "coherent_dd": 3,
              "incoherent_dd": 2, "concat": 3, "polconv": 3, "binary": 3, "ctor": 2}
 
